@@ -728,11 +728,12 @@ def _probe_points(f, spec, x, p, rng, feasible_fn=None):
     return out
 
 
-def check_optimal(f, spec, xflat, rng, minimise=True):
-    """Evaluate the property for one (f, step, x).  Returns (ok, detail, witness_flat_or_None)."""
+def check_optimal(f, spec, xflat, rng, minimise=True, factory=None):
+    """Evaluate the property for one (f, step, x).  Returns (ok, detail, witness_flat_or_None).
+    factory: a proximal factory claimed to be that of f (default f.proximal)."""
     X = f.domain
     x = unflatten(X, xflat)
-    p = f.proximal(step_of(spec, X))(x)
+    p = (factory or f.proximal)(step_of(spec, X))(x)
     fp = float(f(p))
     if not math.isfinite(fp):
         return False, 'f(p) = %r is not finite' % fp, None
@@ -760,7 +761,19 @@ def check_optimal(f, spec, xflat, rng, minimise=True):
     return True, None, None
 
 
-def optimal_replay(fcode, spec, xflat, zflat):
+def optimal_replay(fcode, spec, xflat, zflat, faccode=None):
+    return (PROBE_PRELUDE +
+            "f = %s\nX = f.domain\nspec = %r\nx = unflatten(X, %r)\n" % (fcode, spec, xflat) +
+            ("p = f.proximal(step_of(spec, X))(x)\n" if faccode is None else
+             "p = (%s)(step_of(spec, X))(x)\n" % faccode) +
+            "observed = {'p': flatten(p), 'f(p)': float(f(p)), 'F(p)': objective(f, spec, x, p)}\n" +
+            ("z = unflatten(X, %r)\nexpected = {'F(z) (a competitor with a smaller value)': objective(f, spec, x, z)}\n"
+             "ok = np.isfinite(float(f(p))) and objective(f, spec, x, p) <= objective(f, spec, x, z) + 1e-9*(1+abs(objective(f, spec, x, p)))\n"
+             % (zflat,) if zflat is not None else
+             "expected = 'f(p) finite'\nok = bool(np.isfinite(float(f(p))))\n"))
+
+
+def _optimal_replay_old(fcode, spec, xflat, zflat):
     return (PROBE_PRELUDE +
             "f = %s\nX = f.domain\nspec = %r\nx = unflatten(X, %r)\n"
             "p = f.proximal(step_of(spec, X))(x)\n"
@@ -932,6 +945,80 @@ def probes(rng, tier):
             ok, detail = False, 'raised %s' % type(e).__name__
         out.append(C.Probe(ok, 'conj-l1-g-element-sigma',
                            'proximal_convex_conj_l1(space, g=g)(sigma element)(x) returns a point', rp, detail))
+    # 4b. factories called directly with lam, g and every documented step kind, against the functional they claim
+    P = 'odl.solvers.nonsmooth.proximal_operators'
+    for kind in ('l1', 'l2', 'l2sq', 'ccl1', 'ccl2', 'ccl2sq', 'l1l2', 'ccl1l2', 'huber', 'box', 'linf', 'cclinf'):
+        for _ in range(reps):
+            sp, _tag = rand_space(rng, tier, flat_only=True)
+            if kind in ('huber',) and 'weighting=[' in sp.code:
+                continue
+            if kind in ('linf', 'cclinf') and _nonunit_weights(sp):
+                continue
+            n = sp.n
+            lam = rng.choice([0.5, 1.0, 2.0, 3.0])
+            g = vec(rng, n, lo=-6, hi=6)
+            Xc = sp.code
+            vec_ok = kind in ('l1', 'l2sq', 'ccl2sq')
+            if kind == 'l1':
+                fc = '(lambda X: (%r * S.L1Norm(X)).translated(unflatten(X, %r)))(%s)' % (lam, g, Xc)
+                pc = '(lambda X: %s.proximal_l1(X, %r, unflatten(X, %r)))(X)' % (P, lam, g)
+            elif kind == 'l2':
+                fc = '(lambda X: (%r * S.L2Norm(X)).translated(unflatten(X, %r)))(%s)' % (lam, g, Xc)
+                pc = '(lambda X: %s.proximal_l2(X, %r, unflatten(X, %r)))(X)' % (P, lam, g)
+            elif kind == 'l2sq':
+                fc = '(lambda X: (%r * S.L2NormSquared(X)).translated(unflatten(X, %r)))(%s)' % (lam, g, Xc)
+                pc = '(lambda X: %s.proximal_l2_squared(X, %r, unflatten(X, %r)))(X)' % (P, lam, g)
+            elif kind == 'ccl1':
+                fc = ('(lambda X: S.FunctionalQuadraticPerturb(S.IndicatorBox(X, %r, %r), linear_term=unflatten(X, %r)))(%s)'
+                      % (-lam, lam, g, Xc))
+                pc = '(lambda X: %s.proximal_convex_conj_l1(X, %r, unflatten(X, %r)))(X)' % (P, lam, g)
+            elif kind == 'ccl2':
+                fc = ('(lambda X: S.FunctionalQuadraticPerturb(S.FunctionalRightScalarMult(S.IndicatorLpUnitBall(X, 2), %r), '
+                      'linear_term=unflatten(X, %r)))(%s)' % (1.0 / lam, g, Xc))
+                pc = '(lambda X: %s.proximal_convex_conj_l2(X, %r, unflatten(X, %r)))(X)' % (P, lam, g)
+            elif kind == 'ccl2sq':
+                fc = ('(lambda X: S.FunctionalQuadraticPerturb(%r * S.L2NormSquared(X), linear_term=unflatten(X, %r)))(%s)'
+                      % (0.25 / lam, g, Xc))
+                pc = '(lambda X: %s.proximal_convex_conj_l2_squared(X, %r, unflatten(X, %r)))(X)' % (P, lam, g)
+            elif kind in ('l1l2', 'ccl1l2'):
+                d = rng.choice([2, 3])
+                Xc = 'odl.ProductSpace(%s, %d)' % (sp.code, d)
+                g = vec(rng, n * d, lo=-6, hi=6)
+                n = n * d
+                if kind == 'l1l2':
+                    fc = '(lambda X: (%r * S.GroupL1Norm(X, 2)).translated(unflatten(X, %r)))(%s)' % (lam, g, Xc)
+                    pc = '(lambda X: %s.proximal_l1_l2(X, %r, unflatten(X, %r)))(X)' % (P, lam, g)
+                else:
+                    fc = ('(lambda X: S.FunctionalQuadraticPerturb(S.FunctionalRightScalarMult('
+                          'S.IndicatorGroupL1UnitBall(X, 2), %r), linear_term=unflatten(X, %r)))(%s)' % (1.0 / lam, g, Xc))
+                    pc = '(lambda X: %s.proximal_convex_conj_l1_l2(X, %r, unflatten(X, %r)))(X)' % (P, lam, g)
+            elif kind == 'huber':
+                gam = rng.choice([0.5, 1.0, 2.0])
+                fc = 'S.Huber(%s, %r)' % (Xc, gam)
+                pc = '%s.proximal_huber(X, %r)' % (P, gam)
+            elif kind == 'box':
+                lo, hi = dy(rng, -8, 0), dy(rng, 0, 8)
+                fc = 'S.IndicatorBox(%s, %r, %r)' % (Xc, lo, hi)
+                pc = '%s.proximal_box_constraint(X, %r, %r)' % (P, lo, hi)
+            elif kind == 'linf':
+                fc = 'S.LpNorm(%s, np.inf)' % Xc
+                pc = '%s.proximal_linfty(X)' % P
+            else:
+                fc = 'S.IndicatorLpUnitBall(%s, 1)' % Xc
+                pc = '%s.proximal_convex_conj_linfty(X)' % P
+            spec = ('vec', [pos(rng) for _ in range(n)]) if (vec_ok and rng.random() < 0.5) else ('scal', pos(rng))
+            x = vec(rng, n)
+            key = 'factory-%s-%s-%s' % (kind, _space_kind(Xc), spec[0])
+            what = '%s is the proximal factory of %s' % (pc, fc)
+            try:
+                f = eval(fc, env)
+                fac = eval(pc, dict(env, X=f.domain))
+                ok, detail, wz = check_optimal(f, spec, x, rng, factory=fac)
+            except Exception as e:   # noqa
+                ok, detail, wz = False, 'raised %s: %s' % (type(e).__name__, str(e)[:120]), None
+            if not ok and kind == 'cclinf' and detail and detail.startswith('f(p) ='):
+                key = 'indicator-l1-ball-rounding-outside'
+            out.append(C.Probe(ok, key, what, optimal_replay(fc, spec, x, wz, faccode=pc), detail))
     # 5. consequences: firm non-expansiveness; indicator proximals land in the set and are idempotent
     for _ in range(ntrees // 2):
         t = rand_tree(rng, tier, rng.randint(0, 2))
